@@ -221,6 +221,7 @@ impl<W: Write> SinkView for CountingWrite<W> {
     open spec fn delivered(&self) -> Seq<u8> { self.inner.delivered() }
     open spec fn cap(&self) -> nat { self.inner.cap() }
     open spec fn pos(&self) -> nat { self.bytes_written as nat }
+    open spec fn unbounded(&self) -> bool { self.inner.unbounded() }
 }
 
 // what create_xref_steam returns for the entry map m and table size `size` (rows for object numbers 1..=size)
